@@ -345,7 +345,11 @@ class C11(Check):
                     events.append([3, i])
                     sim.unsubscribe(i)
                 elif r < 0.9:
-                    events.append(self.gen_ctor(rng, sim, kind=rng.choice(kinds), allow_bad=False))
+                    # f32 cases: no EarliestStartTimeObserver constructed on a dispatcher with a past - the cells of
+                    # the operations ALREADY scheduled keep the constructor's float32 cumulative sums (rounded above
+                    # 2^24; the property does not speak about them), which the exact model does not reproduce
+                    late_kinds = [k for k in kinds if not (f32 and k == 1)]
+                    events.append(self.gen_ctor(rng, sim, kind=rng.choice(late_kinds), allow_bad=False))
                 else:
                     events.append(self.gen_composite(rng, sim))
                 for _ in range(rng.randint(0, 5)):
